@@ -54,7 +54,7 @@ Conv(dev, new, old, loc, glo) ==
       one(t, s) == Cardinality({i \in DOMAIN t : Slot(vis, t[i].row) = s}) <= 1
   IN \A s \in slots :
        LET d == pick(d0, s) n == pick(n0, s) o == pick(o0, s) rule == vis[s[1]]
-           kl == IF rule.glob THEN <<>> ELSE rule.kids  kg == InheritDown(loc, glo) IN
+           kl == KidRules(vis, IF d # <<>> THEN d[1].row ELSE n[1].row)  kg == InheritDown(loc, glo) IN
        /\ one(d0, s)
        /\ CASE rule.logic = "permanent" /\ n = <<>> ->
                  d # <<>> => (o # <<>> /\ d[1].row = o[1].row /\ Conv(d[1].kids, <<>>, o[1].kids, kl, kg))
